@@ -183,7 +183,7 @@ func mutateSource(t *rapid.T, src []byte) []byte {
 		if len(spans) == 0 {
 			return append(src, []byte(rapid.SampledFrom(hostileDict).Draw(t, "h"))...)
 		}
-		op := rapid.SampledFrom([]string{"truncate", "truncate", "delete", "dup", "swap", "replace", "replace", "insert", "insert", "appendhostile"}).Draw(t, "op")
+		op := rapid.SampledFrom([]string{"truncate", "truncate", "delete", "dup", "swap", "replace", "replace", "insert", "insert", "appendhostile", "samekind", "samekind"}).Draw(t, "op")
 		si := rapid.IntRange(0, len(spans)-1).Draw(t, "span")
 		sp := spans[si]
 		var out []byte
@@ -210,6 +210,33 @@ func mutateSource(t *rapid.T, src []byte) []byte {
 			out = append(out, src[a[1]:b[0]]...)
 			out = append(out, src[a[0]:a[1]]...)
 			out = append(out, src[b[1]:]...)
+		case "samekind":
+			// a hostile token of the same lexical kind at the same place: the surrounding syntax stays
+			// valid, so the value reaches the literal parsers (numbers, escapes, times, addresses)
+			kindOf := func(sp [2]int) int {
+				cur := src[sp[0]:sp[1]]
+				switch {
+				case len(cur) > 0 && cur[0] >= '0' && cur[0] <= '9':
+					return 0
+				case len(cur) > 0 && (cur[0] == '"' || (cur[0] == '{' && len(cur) > 1)):
+					return 1
+				}
+				return 2
+			}
+			// choose the kind first (numbers are rare among tokens), then one token of that kind
+			want := rapid.IntRange(0, 2).Draw(t, "kind")
+			var same [][2]int
+			for _, x := range spans {
+				if kindOf(x) == want {
+					same = append(same, x)
+				}
+			}
+			if len(same) > 0 {
+				sp = same[rapid.IntRange(0, len(same)-1).Draw(t, "samespan")]
+			}
+			pool := [][]string{hostileNumbers, hostileStrings, hostileWords}[kindOf(sp)]
+			tok := rapid.SampledFrom(pool).Draw(t, "samekind")
+			out = append(append(append(out, src[:sp[0]]...), tok...), src[sp[1]:]...)
 		case "replace":
 			tok := drawHostileOrVCL(t)
 			out = append(append(append(out, src[:sp[0]]...), tok...), src[sp[1]:]...)
@@ -223,6 +250,10 @@ func mutateSource(t *rapid.T, src []byte) []byte {
 	}
 	return src
 }
+
+var hostileNumbers = []string{"99999999999999999999999", "9223372036854775808", "9223372036854775807", "0x", "0xFFFFFFFFFFFFFFFF", "0xFFFFFFFFFFFFFFFFF", "0x1.p", "0x1.8p99999", "1e", "1e999", "1.2.3", "00", "1.", "1.e5", "0x.8", "5s5", "1ms", "99999999999999999999s", "1.5.5s", "0y", "7q", "1_000", "1e-999", "0b1", "1%"}
+var hostileStrings = []string{`""`, `"%"`, `"%zz"`, `"100%"`, `"%u00"`, `"%ud800"`, `"%u{}"`, `"%u{110000}"`, `"%u{1F600}"`, `"%e3%81"`, `"%00"`, `"%u0000"`, `"a%20b"`, `{""}`, `{"}"}`, `{X"x"X}`, `{X"x"Y}`, `{"%zz"}`, "\"\xff\xfe\"", `"999.999.999.999"`, `"::"`, `"1.2.3"`, `"é"`, `"\\"`, `"a` + "\n" + `b"`}
+var hostileWords = []string{"rol", "ror", "default", "pragma", "C!", "W!", "if", "else", "case", "req.http.", "req.http.a:", "req.http.a:b:c", "var.", ".x", "a..b", "vcl_recv", "true", "now", "-", "!", "a-", "é", "STRING", "sub", "call", "goto", "x:", "_", "fallthrough", "break", "import", "include"}
 
 func drawHostileOrVCL(t *rapid.T) []byte {
 	if rapid.Bool().Draw(t, "hostile") {
